@@ -16,7 +16,7 @@ def run(tier):
     rnd = random.Random(common.seed() + 10)
     n = 120 if tier == 'quick' else 2500
     jobs = []
-    for k, j in enumerate(ec.random_jobs(rnd, n, label='pause', gen_kw=dict(p_cmd=0.05))):
+    for k, j in enumerate(ec.random_jobs(rnd, n, label='pause', gen_kw=dict(p_cmd=0.08, cmds=['fail', 'succeed', 'noop', 'pause', 'pause']))):
         at = rnd.randint(1, 30)
         j['ops'] = [dict(at=at, op='pause'), dict(at=at + rnd.randint(1, 15), op='resume')]
         jobs.append(j)
